@@ -56,7 +56,7 @@ ASSUMPTIONS = [
     '--triples output is compared token for token; it is excluded from the feed-back clause because the tool cannot read it.',
     'Generated inputs avoid :subset/:superset/include-91 (ambiguous AMR reification, finding F4, judged under C12).',
 ]
-PROBES = ['stdin_input', 'multi_file', 'triples_mode', 'normal_form_checked', 'format_pair_checked',
+PROBES = ['encoding_option', 'stdin_input', 'multi_file', 'triples_mode', 'normal_form_checked', 'format_pair_checked',
           'identity_checked', 'reconfigure', 'rearrange', 'make_variables', 'reify_edges', 'dereify_edges',
           'reify_attributes', 'indicate_branches', 'canonicalize_roles', 'random_key_constant_stream',
           'model_file', 'subprocess_crosscheck', 'pipeline_mode', 'verbose']
@@ -82,6 +82,8 @@ def plan_options(rng, spec):
         o['reconfigure'] = rng.sample(RECONFIGURE_KEYS, n)
     if rng.chance(p * 0.7):
         o['make_variables'] = rng.pick(VAR_FORMATS)
+    if rng.chance(0.12):
+        o['encoding'] = rng.pick(['utf-16', 'utf-8-sig', 'utf-32'])
     if rng.chance(0.1):
         o['indent_arg'] = rng.pick(['no', 'None', 'FALSE', '-1', '0', '2'])
         o['indent'] = {'no': None, 'None': None, 'FALSE': None, '-1': -1, '0': 0, '2': 2}[o['indent_arg']]
@@ -175,8 +177,12 @@ def run_tool(spec, opts, stdin, texts, trace, k, res, tag):
     if stdin:
         stdin_bytes = texts[0].encode('utf-8')
     else:
+        enc = opts.get('encoding') or 'utf-8'
+        if opts.get('encoding'):
+            argv += ['--encoding', enc]
+            res.hit('probe.encoding_option')
         for i, t in enumerate(texts):
-            files[f'/sim/in{i}.penman'] = t.encode('utf-8')
+            files[f'/sim/in{i}.penman'] = t.encode(enc)
             plans[f'/sim/in{i}.penman'] = trace.get('read_plan')
             argv.append(f'/sim/in{i}.penman')
     import penman.model as pmodel
@@ -317,7 +323,7 @@ def execute(trace):
                             **detail)
             if trace.get('pipeline') and r3.exc is None and r3.exit == 0:
                 pipeline_mode(trace, spec, opts, stdin, texts, r3, res, detail)
-    if trace.get('subprocess') and rexc is None and not uses_random(opts):
+    if trace.get('subprocess') and rexc is None and not uses_random(opts) and not opts.get('encoding'):
         subprocess_crosscheck(spec, argv, texts, stdin, r, res)
     for name, n in k.c.items():
         res.hit(name, n)
